@@ -37,7 +37,7 @@ struct FactorOutcome {
     int expansions = -1; long expand_allocs = 0; int glu_exp = 0;   // glu_exp: growth events counted by the library itself, also valid on a failed return
     float for_lu = 0, total_needed = 0;
     long implied_lo = 0, implied_hi = 0;   // byte size of the returned arrays: used part / plus the pointer arrays
-    bool canary_ok = true; std::string canary_msg;
+    bool canary_ok = true; std::string canary_msg; bool stack_overlap = false;
     bool structure_ok = true; std::string structure_msg, structure_oracle;
     bool leak = false; std::string leak_msg;
     int multi = 0; bool identity_ok = true; std::string identity_msg, identity_oracle; bool degenerate = false;
@@ -165,6 +165,17 @@ inline FactorOutcome factor_once(const FactorProblem<T> &P, const StorageCfg &cf
         }
     }
     if (cfg.lwork > 0) { std::string msg; if (!gw.check(msg)) { out.canary_ok = false; out.canary_msg = msg; } }
+    // Inside the workspace the factor arrays grow from the head and the work arrays sit at the tail (GlobalLU_t::stack, a
+    // public structure): the head must have stayed clear of the work arrays it coexisted with.
+    // (also after a shortage met during the column loop, i.e. once the initial allocation had succeeded: num_expansions >= 1)
+    if (cfg.lwork > 0 && (formed || (info > k && Glu.num_expansions >= 1)) && out.canary_ok) {
+        long panel = sp_ienv(1), maxsuper = std::max(sp_ienv(3), sp_ienv(7)), rowblk = sp_ienv(4);
+        long tail = (2 * panel + 2 + 3) * (long)m * (long)sizeof(int) + ((long)m * panel + std::max<long>(m, (maxsuper + rowblk) * panel)) * (long)sizeof(T);
+        if ((long)Glu.stack.top1 + tail > (long)Glu.stack.size) {
+            out.canary_ok = false; out.stack_overlap = true;
+            out.canary_msg = fmt("head of the workspace stack (top1=%ld) ran into the work arrays (%ld bytes at the tail of %ld)", (long)Glu.stack.top1, tail, (long)Glu.stack.size);
+        }
+    }
     // the caller's side of the documented protocol
     if (formed) {
         if (cfg.lwork > 0) { Destroy_SuperMatrix_Store(&L); Destroy_SuperMatrix_Store(&U); }
